@@ -924,6 +924,9 @@ def rule_pure1(ctx: Ctx) -> RuleResult:
 # CPython refuses these outside the main thread of the main interpreter (ValueError / RuntimeError)
 MAIN_THREAD_ONLY = {"signal.signal": "ValueError: signal only works in main thread of the main interpreter",
                     "signal.set_wakeup_fd": "ValueError: set_wakeup_fd only works in main thread"}
+# per-thread settings: done at import time they exist in the importing thread only
+PER_THREAD_SETTERS = ("decimal.getcontext", "decimal.setcontext", "getcontext", "setcontext", "asyncio.set_event_loop",
+                      "sys.settrace", "sys.setprofile", "threading.settrace")
 
 
 def _main_thread_only_calls(tree: ast.AST) -> list:
@@ -975,6 +978,16 @@ def rule_thread1(ctx: Ctx) -> RuleResult:
                 rr.ob(f.relpath, f.qualname, norm(n)[:80], st, VIOLATED,
                       f"`{full}` may only be called from the main thread ({MAIN_THREAD_ONLY[full]}); {f.qualname} is "
                       f"reachable from a worker thread", n.lineno)
+    # settings that are per thread, applied at import time (module level): every other thread runs without them
+    for m in prog.pkg_modules():
+        fn_nodes = {id(x) for f in m.all_funcs for x in ast.walk(f.node)}
+        for n in ast.walk(m.tree):
+            if isinstance(n, ast.Call) and id(n) not in fn_nodes and norm(n.func) in PER_THREAD_SETTERS:
+                rr.instances += 1
+                rr.ob(m.relpath, "<module>", norm(n)[:60], "the result of a generation does not depend on which thread imported the "
+                      "package", VIOLATED,
+                      f"`{norm(n.func)}` configures the current thread only: the setting made at import time exists in the importing "
+                      f"thread and nowhere else, so the same generation gives another result from a worker thread", n.lineno)
     rr.instances += 1
     rr.ob("json_to_models", "<package>", f"{n_funcs} functions on generation / CLI paths", st, DISCHARGED,
           f"none of {sorted(MAIN_THREAD_ONLY)} is called (positive control matched 2/2)", 1)
@@ -1027,7 +1040,7 @@ def _stateful_module_objects(tree: ast.AST) -> List[Tuple[str, ast.AST, str]]:
                 if dotted in STATEFUL_EXTERNAL:
                     for t in (n.targets if isinstance(n, ast.Assign) else [n.target]):
                         if isinstance(t, ast.Name):
-                            out.append((t.id, n, dotted))
+                            out.append((t.id, n, dotted))     # module level, or a class attribute (bound once per process)
     return out
 
 
@@ -1046,7 +1059,8 @@ def rule_shared1(ctx: Ctx) -> RuleResult:
         n_mod += 1
         for name, node, dotted in _stateful_module_objects(m.tree):
             users = [f for f in m.all_funcs if f in scope and any(
-                isinstance(x, ast.Name) and x.id == name and isinstance(x.ctx, ast.Load) for x in ast.walk(f.node))]
+                (isinstance(x, ast.Name) and x.id == name and isinstance(x.ctx, ast.Load)) or
+                (isinstance(x, ast.Attribute) and x.attr == name and isinstance(x.ctx, ast.Load)) for x in ast.walk(f.node))]
             rr.instances += 1
             if users:
                 rr.ob(m.relpath, users[0].qualname, norm(node)[:80], st, VIOLATED,
@@ -1058,3 +1072,9 @@ def rule_shared1(ctx: Ctx) -> RuleResult:
     rr.instances += 1
     rr.ob("json_to_models", "<package>", f"{n_mod} modules", st, DISCHARGED, "inventory complete (positive control matched)", 1)
     return rr
+
+
+def rule_glob1_registry(ctx: Ctx) -> RuleResult:
+    """GLOB-1 restricted to the model registry (its results are per call: no list shared between calls or registries)."""
+    return _scoped_glob1(ctx, "GLOB-1r", "the model registry keeps no state shared between calls or registries",
+                         lambda o: o.file.endswith("json_to_models/registry.py"))
